@@ -1,0 +1,9 @@
+//go:build !verif
+
+package importcache
+
+import "sync"
+
+// afterCondWake is a seam for deterministic simulation; it does nothing in
+// normal builds (see simhook_verif.go).
+func afterCondWake(*sync.Mutex) {}
